@@ -4,7 +4,7 @@
 //!
 //! `io c14 gen --seed S --n N --tier T`   well-formed files (random record lists printed by the
 //!                                        canonical printers re-implemented below) x 9 chunkings
-//! `io c15 gen --seed S --n N --tier T`   malformed inputs x 3 chunkings
+//! `io c15 gen --seed S --n N --tier T`   malformed inputs x 3 chunkings (fault scripts included)
 //! `io <any> run`                         stdin: input lines; stdout: `<line> => <observation>`
 //! `io selftest`                          facts about std/nom the Coq model relies on
 //!
@@ -22,8 +22,8 @@
 //!   one `|`-separated group per chunking (`=`: identical to the first group); outcome
 //!   o = R:<idhex>:<deschex or ->:<rows>:<cells row-major, K per row> | E:io|nom|inv | END | PANIC | CAP | HANG
 //!   (HANG: the case did not finish within the watchdog limit LM_IO_WATCHDOG_S, default 180 s)
-//!   next() is called until END, or `post` more times after the first error, or the cap of
-//!   len + 2 (+ post) calls (CAP).  ft: Rust's str::parse::<f32> of every float token that
+//!   next() is called until the first outcome that is not a record (END or an error; CAP after
+//!   len + 2 calls without one), then `post` more times whatever the calls return (a PANIC ends the list).  ft: Rust's str::parse::<f32> of every float token that
 //!   follows a TAB (the oracle of the UniPROBE model), cells of UniPROBE records are f32 bits.
 
 use std::io::{BufRead, BufReader, Cursor, Read};
@@ -322,14 +322,17 @@ fn show_rec(id: &str, desc: Option<&str>, rows: usize, cells: Vec<String>) -> St
     )
 }
 
-/// Drive one reader: `step` performs one `next()` and renders the outcome.
+/// Drive one reader: `step` performs one `next()` and renders the outcome.  Records are read until
+/// the first outcome that is not a record (an error or END; CAP if none came within len + 2 calls),
+/// then `post` more calls are made WHATEVER they return (C15: each request returns a record, an error
+/// or end of input -- the requests after an error and after END too); only a PANIC ends the list early.
 fn drive(n_bytes: usize, post: usize, mut step: impl FnMut() -> Option<Result<String, String>>) -> Vec<String> {
     let mut out = vec![];
     let cap = n_bytes + 2;
     let mut calls = 0usize;
-    let mut after_err: Option<usize> = None;
+    let mut after: Option<usize> = None;
     loop {
-        if let Some(k) = after_err {
+        if let Some(k) = after {
             if k >= post {
                 break;
             }
@@ -338,26 +341,21 @@ fn drive(n_bytes: usize, post: usize, mut step: impl FnMut() -> Option<Result<St
             break;
         }
         calls += 1;
-        match no_panic(|| step()) {
+        let o = match no_panic(|| step()) {
             None => {
                 out.push("PANIC".to_string());
                 break;
             }
-            Some(None) => {
-                out.push("END".to_string());
-                break;
-            }
-            Some(Some(Ok(r))) => {
-                out.push(r);
-                if let Some(k) = after_err.as_mut() {
-                    *k += 1;
-                }
-            }
-            Some(Some(Err(e))) => {
-                out.push(format!("E:{}", e));
-                match after_err.as_mut() {
-                    Some(k) => *k += 1,
-                    None => after_err = Some(0),
+            Some(None) => (false, "END".to_string()),
+            Some(Some(Ok(r))) => (true, r),
+            Some(Some(Err(e))) => (false, format!("E:{}", e)),
+        };
+        out.push(o.1);
+        match after.as_mut() {
+            Some(k) => *k += 1,
+            None => {
+                if !o.0 {
+                    after = Some(0)
                 }
             }
         }
@@ -804,7 +802,7 @@ fn gen_c14(seed: u64, n: usize, tier: &str) {
         chunks.push(gen_chunks(&mut rng, len));
         let enc: Vec<String> = recs.iter().map(|(y, r)| rec_enc(y, r)).collect();
         println!(
-            "g{} mode=c14 fmt={} abc={} pre={} suf={} chunks={} recs={}",
+            "g{} mode=c14 fmt={} abc={} post=2 pre={} suf={} chunks={} recs={}",
             i,
             fmt,
             abc,
@@ -995,15 +993,73 @@ fn structural(rng: &mut Rng, fmt: &str, abc: &str) -> Vec<u8> {
 }
 
 fn emit15(out: &mut Vec<String>, rng: &mut Rng, fmt: &str, abc: &str, data: &[u8]) {
+    let chunks = c15_chunks(rng, data.len());
+    emit15_with(out, fmt, abc, data, &chunks);
+}
+
+fn emit15_with(out: &mut Vec<String>, fmt: &str, abc: &str, data: &[u8], chunks: &str) {
     let i = out.len();
-    out.push(format!(
-        "g{} mode=c15 fmt={} abc={} post=3 chunks={} hex={}",
-        i,
-        fmt,
-        abc,
-        c15_chunks(rng, data.len()),
-        hex(data)
-    ));
+    out.push(format!("g{} mode=c15 fmt={} abc={} post=3 chunks={} hex={}", i, fmt, abc, chunks, hex(data)));
+}
+
+/// Offsets at which a line starts (0 and after every LF).
+fn line_starts(data: &[u8]) -> Vec<usize> {
+    let mut v = vec![0usize];
+    for (i, b) in data.iter().enumerate() {
+        if *b == b'\n' && i + 1 <= data.len() {
+            v.push(i + 1);
+        }
+    }
+    v
+}
+
+/// Bytes that are not UTF-8 on their own: a stray continuation byte, lead bytes without their
+/// continuation (2-, 3-, 4-byte forms), an overlong lead, 0xFF, a UTF-16 surrogate encoded in 3 bytes.
+const BAD_UTF8: &[&[u8]] = &[b"\x80", b"\xc3", b"\xe2\x82", b"\xf0\x9f\xa7", b"\xc0\xaf", b"\xff", b"\xed\xa0\x80"];
+
+/// Invalid UTF-8 at chosen offsets of a multi-record file (inserted or overwriting), multi-byte
+/// characters (white-space-like ones included) at line starts, and fault scripts failing at the k-th fill_buf.
+fn sweeps(out: &mut Vec<String>, rng: &mut Rng, fmt: &str, abc: &str, base: &[u8], all: bool) {
+    // (a) invalid bytes at every offset (thorough) / a sample of offsets (quick)
+    let offs: Vec<usize> = if all { (0..=base.len()).collect() } else { (0..10).map(|_| rng.below(base.len() as u64 + 1) as usize).collect() };
+    for p in offs {
+        let bad: &[u8] = *rng.pick(BAD_UTF8);
+        let mut v = base.to_vec();
+        if rng.chance(1, 2) && p < v.len() {
+            let e = (p + bad.len()).min(v.len());
+            v.splice(p..e, bad.iter().cloned());
+        } else {
+            v.splice(p..p, bad.iter().cloned());
+        }
+        emit15(out, rng, fmt, abc, &v);
+    }
+    // (b) multi-byte characters at line starts
+    let ls = line_starts(base);
+    let picks: Vec<usize> = if all { ls.clone() } else { (0..6).map(|_| *rng.pick(&ls)).collect() };
+    for p in picks {
+        let ch = rng.pick(NON_ASCII).as_bytes();
+        let mut v = base.to_vec();
+        v.splice(p..p, ch.iter().cloned());
+        emit15(out, rng, fmt, abc, &v);
+    }
+    // (c) fill_buf fails at the k-th call (in Reader::new for k = 0, inside next() later), slices of a fixed size
+    for _ in 0..(if all { 24 } else { 8 }) {
+        let c = *rng.pick(&[1usize, 2, 5, 16, 61, 4096]);
+        let slices = (base.len() + c - 1) / c.max(1);
+        let k = rng.below(slices.min(40) as u64 + 2) as usize;
+        let kind = *rng.pick(&["Eo", "Eo", "Eu", "Ed", "Ew", "Ei"]);
+        let mut ev: Vec<String> = (0..k).map(|_| c.to_string()).collect();
+        ev.push(kind.to_string());
+        if rng.chance(1, 3) {
+            // a second failure a few slices later, or right away
+            for _ in 0..rng.below(4) {
+                ev.push(c.to_string());
+            }
+            ev.push((*rng.pick(&["Eo", "Ei", "Eu"])).to_string());
+        }
+        let spec = format!("all;ev:{};cap:3", ev.join(","));
+        emit15_with(out, fmt, abc, base, &spec);
+    }
 }
 
 fn gen_c15(seed: u64, n: usize, tier: &str) {
@@ -1041,6 +1097,12 @@ fn gen_c15(seed: u64, n: usize, tier: &str) {
         for _ in 0..16 {
             let d = structural(&mut rng, fmt, abc);
             emit15(&mut out, &mut rng, fmt, abc, &d);
+        }
+        // invalid UTF-8 / multi-byte characters / failing fill_buf over a multi-record file
+        {
+            let recs: Vec<(Style, Src)> = (0..rng.range(2, 3)).map(|_| gen_record(&mut rng, fmt, abc, 4)).collect();
+            let multi = print_file(fmt, b"", &recs, b"");
+            sweeps(&mut out, &mut rng, fmt, abc, &multi, tier == "thorough");
         }
         // random bytes, random text over the format's own characters
         for _ in 0..6 {
